@@ -665,7 +665,18 @@ func Register(p Prop) { registry[p.ID()] = p }
 //	vcheck drive <id> <tier>
 //	vcheck work <id> <tier> <seed> <i,j,k> <journal>
 //	vcheck one <id> <tier> <seed> <index>      (run one case in-process, print result)
+//
+// ChildModes lets a check re-execute the harness binary in a special role
+// (selected by the VERIF_CHILD environment variable) before normal dispatch.
+var ChildModes = map[string]func(){}
+
 func Main(race bool) {
+	if m := os.Getenv("VERIF_CHILD"); m != "" {
+		if f, ok := ChildModes[m]; ok {
+			f()
+			os.Exit(0)
+		}
+	}
 	if len(os.Args) < 3 {
 		fmt.Fprintln(os.Stderr, "usage: vcheck drive|work|one <id> ...")
 		os.Exit(2)
